@@ -71,6 +71,7 @@ static void n_case(uint64_t idx, void *ctx)
         if (opt) { SPIFOPT_FLAGS_SET(SPIFOPT_SETTING_PREPARSE); SPIFOPT_ALLOWBAD_SET(3); memcpy(&opt0, &spifopt_settings, sizeof opt0); }      /* the parser's settings as a two-pass client leaves them before its first pass */
         c->fn(&r);
         if (conf) r.aftermath = conf_after();
+        if (!strncmp(c->func, "libast_", 7) && !silent && r.returned) { int n1 = libast_dprintf("after the refused call %d\n", 1), n2 = libast_dprintf("and again %d\n", 2); if (n1 <= 0 || n2 <= 0) r.aftermath = 9; }      /* the output functions still work */
         if (opt && memcmp(&opt0, &spifopt_settings, sizeof opt0)) r.aftermath = 8;
         if (write(rp[1], &r, sizeof r) != sizeof r) _exit(9);
         _exit(0);
@@ -94,7 +95,7 @@ static void n_case(uint64_t idx, void *ctx)
     } else if (WIFEXITED(st) && WEXITSTATUS(st) == 0 && got == (ssize_t) sizeof r && r.returned) {
         if (!r.ret_ok) FAIL(site, "model:failure-value", shape, "returned something other than the stated failure value %s", c->val);
         if (r.arg_changed) FAIL(site, "model:argument-changed", shape, "argument %d was modified by the failing call", r.arg_changed);
-        if (r.aftermath) FAIL(site, "model:effect", shape, "ordinary use of the module after the refused call differs from use without it (step %d: 2 next context ID, 3 next builtin ID, 4 next file-state index, 5 context lookup and handler calls, 6 next context-state index, 7 the result of an earlier file lookup, 8 the option parser's settings)", r.aftermath);
+        if (r.aftermath) FAIL(site, "model:effect", shape, "ordinary use of the module after the refused call differs from use without it (step %d: 2 next context ID, 3 next builtin ID, 4 next file-state index, 5 context lookup and handler calls, 6 next context-state index, 7 the result of an earlier file lookup, 8 the option parser's settings, 9 libast_dprintf() prints nothing any more)", r.aftermath);
         if (r.alloc_delta) FAIL(site, "model:allocated", shape, "the failing call changed the heap by %ld bytes", r.alloc_delta);
     } else FAIL(site, "crash:exit", shape, "the call ended the process with status 0x%x", st);
     mc_nontrivial();
